@@ -2,6 +2,7 @@
   C15 — Digital signal names always reflect the NI_LineNames property.
 -/
 import NiVerif.Model.Names
+import NiVerif.Gen.Names
 
 namespace Props.C15
 open Model.Names
@@ -267,5 +268,35 @@ theorem lookup_by_name (n : N) (x : Str) (h : NInv n) :
 -- non-vacuity
 example : (readName ⟨2, some "a, b".toList, none⟩ 0).2 = "b".toList := by decide
 example : Clean "line 7".toList := by unfold Clean; decide
+
+/-! ### T16: the name cache as regenerated from `_digital/_waveform.py` is the model's -/
+
+/-- **the generated `_get_line_names` is the model's `names`**: a filled cache is returned as it is; otherwise the entry is split on
+    commas, every part stripped, the list padded with empty names up to the signal count, cached and returned -/
+theorem gen_get_line_names_eq_model (n : N) :
+    Gen.Names.get_line_names n.nsig n.prop n.cache = ((names n).1.cache, (names n).2) := by
+  unfold Gen.Names.get_line_names names
+  cases h : n.cache with
+  | some c => simp [h]
+  | none =>
+    simp only [parse]
+    generalize (splitComma (n.prop.getD [])).map strip = l
+    by_cases hl : l.length < n.nsig
+    · simp [hl]
+    · have h0 : n.nsig - l.length = 0 := by omega
+      simp [hl, h0]
+
+/-- **the generated `_set_line_name` is the model's `writeName`**: the cached (or freshly parsed) names with the one entry replaced
+    are joined with ", " into NI_LineNames, and the write's notification drops the cache -/
+theorem gen_set_line_name_eq_model (n : N) (i : Nat) (v : Str) :
+    Gen.Names.set_line_name n.nsig n.prop n.cache (n.nsig - 1 - i) v = ((writeName n i v).prop, (writeName n i v).cache) := by
+  unfold Gen.Names.set_line_name writeName
+  rw [gen_get_line_names_eq_model]
+  simp [Gen.Names.on_extended_property_changed]
+
+/-- a notification for NI_LineNames drops the cache, any other key leaves it (what `Model.Names.setProp` / `mergeProp` assume) -/
+theorem gen_on_changed (c : Option (List Str)) :
+    Gen.Names.on_extended_property_changed true c = none ∧ Gen.Names.on_extended_property_changed false c = c := by
+  simp [Gen.Names.on_extended_property_changed]
 
 end Props.C15
